@@ -97,3 +97,16 @@ Proof. vm_compute. reflexivity. Qed.
 
 Example C20_example_dup : exec_from [x41] [PUSH_NAT 3; PUSH_STR [x61]; TICKET; DUP] = Reject.
 Proof. vm_compute. reflexivity. Qed.
+
+(* a successful SPLIT_TICKET / JOIN_TICKETS redistributes the amount exactly (nothing created, nothing lost) *)
+Theorem C20_split_conserves_exactly : forall st tk c a l r s k,
+  stk st = VTicket tk c a :: VPair (VNat l) (VNat r) :: s -> l <> 0 -> r <> 0 -> l + r = a ->
+  exists st', step SPLIT_TICKET st = Ok st' /\ stack_mass k (stk st') = stack_mass k (stk st) /\ minted st' = minted st.
+Proof. exact split_conserves_exactly. Qed.
+Print Assumptions C20_split_conserves_exactly.
+
+Theorem C20_join_conserves_exactly : forall st t c a1 a2 s k,
+  stk st = VPair (VTicket t c a1) (VTicket t c a2) :: s ->
+  exists st', step JOIN_TICKETS st = Ok st' /\ stack_mass k (stk st') = stack_mass k (stk st) /\ minted st' = minted st.
+Proof. exact join_conserves_exactly. Qed.
+Print Assumptions C20_join_conserves_exactly.
